@@ -92,7 +92,7 @@ def worker(job):
   except F.Unsupported as e:
     out.update(verdict='unsupported', detail=str(e))
     return out
-  budget = 1500 if tier == 'quick' else 7000
+  budget = 1500 if tier == 'quick' else 14000
   try:
     bad_final, ok_py = predicates(sc, sysm)
     bad_stuck = None
